@@ -223,7 +223,8 @@ type c13Stress struct {
 	Writers []c13Writer
 	// CloseAfter > 0: a closer goroutine calls Close once that many writes (over all writers) have completed
 	CloseAfter int
-	Streams    int // >1: additional streams opened concurrently (ids must be distinct)
+	Streams    int  // >1: additional streams opened concurrently (ids must be distinct)
+	Unordered  bool `json:",omitempty"` // datagram-mode session (a Write is one frame; larger writes are refused)
 }
 
 type c13Writer struct {
@@ -280,7 +281,7 @@ func c13StressRun(sc c13Stress) (vk.Result, error) {
 		return res, fmt.Errorf("harness: %v", err)
 	}
 	ref, _ := vk.NewRefCodec(sc.Method, key)
-	sesh := MakeSession(1, SessionConfig{Obfuscator: obfs, MsgOnWireSizeLimit: 16401})
+	sesh := MakeSession(1, SessionConfig{Obfuscator: obfs, MsgOnWireSizeLimit: 16401, Unordered: sc.Unordered})
 	var sinks []*sinkConn
 	for i := 0; i < sc.Conns; i++ {
 		c := newSinkConn()
@@ -342,6 +343,9 @@ func c13StressRun(sc c13Stress) (vk.Result, error) {
 				return
 			}
 			for k, n := range w.Sizes {
+				if sc.Unordered && n > vMaxUnit {
+					n = vMaxUnit
+				}
 				b := make([]byte, n)
 				c13Fill(b, g, k)
 				if _, err := st.Write(b); err != nil {
@@ -428,7 +432,11 @@ func c13StressRun(sc c13Stress) (vk.Result, error) {
 			return res, vk.Violatef("writer %d: write #%d appears on the wire where write #%d was expected (writes of one goroutine out of order or duplicated)", g, k, next[g])
 		}
 		next[g]++
-		want := make([]byte, sc.Writers[g].Sizes[k])
+		wantLen := sc.Writers[g].Sizes[k]
+		if sc.Unordered && wantLen > vMaxUnit {
+			wantLen = vMaxUnit
+		}
+		want := make([]byte, wantLen)
 		c13Fill(want, g, k)
 		off := 0
 		for off < len(want) {
@@ -466,6 +474,9 @@ func c13StressRun(sc c13Stress) (vk.Result, error) {
 	res.NonTrivial = len(sc.Writers) >= 2
 	res.Count = 1
 	res.Labels = append(res.Labels, fmt.Sprintf("writers=%d", len(sc.Writers)))
+	if sc.Unordered {
+		res.Labels = append(res.Labels, "unordered")
+	}
 	return res, nil
 }
 
@@ -492,6 +503,7 @@ func c13StressGen(rt *rapid.T) c13Stress {
 		sc.CloseAfter = rapid.IntRange(1, total).Draw(rt, "closeafter")
 	}
 	sc.Streams = rapid.IntRange(1, 16).Draw(rt, "streams")
+	sc.Unordered = rapid.IntRange(0, 2).Draw(rt, "unordered") == 0
 	return sc
 }
 
